@@ -301,6 +301,102 @@ def _two_pass(case, out, n):
     return out
 
 
+# ---- spelling invariance: u for µ in any subset of the µ-symbols, same reading or same rejection ------
+
+def _micro_positions(text):
+    """Indices of the 'µ' that start a whole µ-symbol (a maximal letter run equal to µm µs µmol µL µM)."""
+    pos = []
+    i, n = 0, len(text)
+    while i < n:
+        if G._is_letter(text[i]):
+            j = i
+            while j < n and G._is_letter(text[j]):
+                j += 1
+            if text[i:j] in MICRO_SYMS:
+                pos.append(i)
+            i = j
+        else:
+            i += 1
+    return pos
+
+
+def _outcome(site, text):
+    try:
+        obj = _call(site, _qtext(site, text))
+    except Exception as e:
+        return ("raised",), "raised %s" % type(e).__name__
+    u = obj.units if isinstance(obj, UnitValue) else obj
+    val = _bits(obj.value).hex() if isinstance(obj, UnitValue) else None
+    return (type(obj).__name__, uq.sys_of(u), uq.dim_of(u), val), _describe(obj)
+
+
+def _spelling(case, out, n):
+    text, mask, (pre, post) = case["text"], case["mask"], case["wrap"]
+    pos = _micro_positions(text)
+    chars = list(text)
+    for k, p_ in enumerate(pos):
+        if mask >> k & 1:
+            chars[p_] = "u"
+    a, b = pre + text + post, pre + "".join(chars) + post
+    if a == b:
+        return
+    for site in ALL_SITES:
+        n[0] += 2
+        oa, da = _outcome(site, a)
+        ob, db = _outcome(site, b)
+        if oa[0] == "raised" and ob[0] == "raised":
+            n[1] += 2
+        if oa != ob:
+            cls = "u-spelling-read-differently" + (":outer-blank" if pre or post else "")
+            out.append(("C18:%s:%s" % (site, cls), "%r -> %s, but %r -> %s" % (a, da, b, db)))
+
+
+def spelling_bases(tier):
+    """µ-spelled texts (valid and malformed), distinct, fixed order."""
+    out, seen = [], set()
+
+    def add(t_):
+        if t_ not in seen and _micro_positions(t_):
+            seen.add(t_)
+            out.append(t_)
+    for m in MICRO_SYMS:
+        for e in (None, 2, -1, -3):
+            add(G.factor_text(m, e))
+    e2 = [None, -1, 2] if tier == "thorough" else [None, -1]
+    for m in MICRO_SYMS:
+        for o in SYMS47:
+            for sp_ in SEPS:
+                for ea in e2:
+                    for eb in e2:
+                        add(G.factor_text(m, ea) + sp_ + G.factor_text(o, eb))
+                        add(G.factor_text(o, ea) + sp_ + G.factor_text(m, eb))
+    comp = {"µm": ("h", "molecule"), "µs": ("km", "mol"), "µmol": ("dmm", "min"), "µL": ("s", "nmol"), "µM": ("s", "L")}
+    for m in MICRO_SYMS:
+        o1, o2 = comp[m]
+        for s1 in SEPS:
+            for s2 in SEPS:
+                for e in (None, 2):
+                    mt = G.factor_text(m, e)
+                    add(mt + s1 + o1 + s2 + o2)
+                    add(o1 + s1 + mt + s2 + o2)
+                    add(o1 + s1 + o2 + s2 + mt)
+    import itertools
+    for tri in (("µm", "µs", "µmol"), ("µL", "µs", "µM")):
+        for perm in itertools.permutations(tri):
+            for s1 in SEPS:
+                for s2 in SEPS:
+                    add(perm[0] + s1 + perm[1] + s2 + perm[2])
+    tails = _strings(EXP_ALPHABET, 2)
+    for m, (o1, o2) in (("µm", ("s", "mol")), ("µM", ("s", "L"))):
+        for x in tails:
+            add(m + x)
+            for s1 in SEPS:
+                add(m + x + s1 + o1)
+                add(o1 + s1 + m + x)
+                add(o1 + s1 + m + x + s1 + o2)
+    return out
+
+
 def _expect_valid(sites, text_of, want, value_of, out, n):
     for site in sites:
         n[0] += 1
@@ -402,13 +498,15 @@ def check_case(case, stats=None):
                 _same_units("print-quantity:" + site, text, p.units, sys3, dim, out)
         elif sub == "alphabet":
             text = case["text"]
-            if text == text.strip(G.BLANKS):          # blanks around the whole text are not part of the question
+            if text == text.strip():                  # white space around the whole text is not part of the question
                 v = G.classify_units(text)
                 sites = UNIT_SITES + QUANT_SITES
                 if v.valid:
                     _expect_valid(sites, lambda s: _qtext(s, text), v, _qval, out, n)
                 elif v.invalid:
                     _expect_raise(sites, lambda s: _qtext(s, text), "outside-grammar-accepted:" + case["family"], out, n)
+        elif sub == "spelling":
+            _spelling(case, out, n)
         elif sub == "history":
             _history(case, out, n)
         elif sub == "history-print":
@@ -555,7 +653,7 @@ assert sorted(t for t, c in DOC_WRONG_QUANTITIES) == sorted(G.DOC_QUANTITY_WRONG
 
 def malformed_family(tier):
     """[(cls, form, text, origin)] in fixed order; every text is INVALID for the reference recogniser."""
-    blanks = [" "] if tier == "quick" else [" ", "\t", "\n"]
+    blanks = WS_QUICK if tier == "quick" else WS_ALL
     cand = []   # (cls, units-text or None, quantity-text or None, origin)
 
     def both(cls, t, w):
@@ -633,6 +731,13 @@ def malformed_family(tier):
 
 # ---- sub-spaces -----------------------------------------------------------------------------------
 
+# every character Python's str.isspace / str.split / str.strip / int() / re treat as white space (29)
+WS_ALL = ([" ", "\n", "\t", "\r", "\xa0", "\x0b", "\x0c", "\x1c", "\x1d", "\x1e", "\x1f", "\x85", "\u1680"]
+          + [chr(c) for c in range(0x2000, 0x200b)] + ["\u2028", "\u2029", "\u202f", "\u205f", "\u3000"])
+WS_QUICK = WS_ALL[:5]
+assert len(WS_ALL) == 29 and all(c.isspace() for c in WS_ALL)
+MICRO_SYMS = [s for s in SYMS47 if s.startswith(G.MICRO)]          # µm µs µmol µL µM
+WRAPS = [("", ""), (" ", ""), ("", " "), (" ", " "), ("\t", ""), ("", "\n"), ("  ", "\r\n")]
 EXP_ALPHABET = ["-", "+", ".", " ", "0", "1", "2", "3"]
 SEP_ALPHABET = [".", "/", " ", "-", "+", "2"]
 # target symbol and two companions of other kinds (no base-unit conflict with the target)
@@ -752,6 +857,36 @@ def _spaces(tier):
                % (maxlen, SEP_ALPHABET, len(sslots), len(ys)), len(sslots) * len(ys),
                lambda i: {"sub": "alphabet", "family": "separator-alphabet",
                           "text": sslots[i // len(ys)][0] + ys[i % len(ys)] + sslots[i // len(ys)][1]}))
+    # the same two families with every other white-space character in place of the blank
+    extra = (WS_QUICK if tier == "quick" else WS_ALL)[1:]
+    long_ws = [] if tier == "quick" else ["\n", "\t"]
+    xw = [x.replace(" ", c) for c in extra for x in _strings(EXP_ALPHABET, 3) if " " in x]
+    xw += [x.replace(" ", c) for c in long_ws for x in _strings(EXP_ALPHABET, 4) if " " in x and len(x) == 4]
+    wslots = slots[:34]
+    sp.append(("exponent-alphabet-whitespace: every string of exponent-alphabet (length <= 3%s) that contains a blank, the blank "
+               "replaced by each of %d other white-space characters %s, x the %d slots of targets m and uM"
+               % ("; length 4 for LF and TAB" if long_ws else "", len(extra), [hex(ord(c)) for c in extra], len(wslots)),
+               len(wslots) * len(xw),
+               lambda i: {"sub": "alphabet", "family": "exponent-alphabet-whitespace",
+                          "text": wslots[i // len(xw)][0] + xw[i % len(xw)] + wslots[i // len(xw)][1]}))
+    yw = [y.replace(" ", c) for c in extra for y in _strings(SEP_ALPHABET, 3) if " " in y]
+    yw += [y.replace(" ", c) for c in long_ws for y in _strings(SEP_ALPHABET, 4) if " " in y and len(y) == 4]
+    sp.append(("separator-alphabet-whitespace: same for separator-alphabet, %d contexts x %d strings" % (len(sslots), len(yw)),
+               len(sslots) * len(yw),
+               lambda i: {"sub": "alphabet", "family": "separator-alphabet-whitespace",
+                          "text": sslots[i // len(yw)][0] + yw[i % len(yw)] + sslots[i // len(yw)][1]}))
+    # spelling invariance
+    sb = spelling_bases(tier)
+    scases = []
+    for tx in sb:
+        k = len(_micro_positions(tx))
+        for w in range(len(WRAPS)):
+            for mask in range(1, 2 ** k):
+                scases.append((tx, mask, w))
+    sp.append(("spelling: %d µ-spelled texts (1-3 factors, valid, conflicting and malformed) x every non-empty subset of their "
+               "µ-symbols written with u x %d outer-blank wraps; differential: same reading or same rejection at the 5 sites"
+               % (len(sb), len(WRAPS)), len(scases),
+               lambda i: {"sub": "spelling", "text": scases[i][0], "mask": scases[i][1], "wrap": list(WRAPS[scases[i][2]])}))
     # histories
     hc = history_cover()
     nvar = len(HISTORY_VARIANTS)
@@ -843,7 +978,7 @@ def _work(job):
             acc.count("history_cases_first_site_" + case["s1"])
         elif sub == "alphabet":
             tx = case["text"]
-            acc.count(case["family"] + "_texts_" + ("outer_blank_not_judged" if tx != tx.strip(G.BLANKS)
+            acc.count(case["family"] + "_texts_" + ("outer_blank_not_judged" if tx != tx.strip()
                                                    else G.classify_units(tx).status))
         for key, what in res:
             acc.violation(key, what, case)
@@ -878,8 +1013,9 @@ def run(ctx):
              "first confirmed by the reference recogniser to be outside the documented grammar; history cases: "
              "parse, modify the returned object in place through the public setters, parse again (all ordered pairs of "
              "the five entry points), non-trivial when the text has a non-zero dimension; alphabet sub-spaces: every string over the stated alphabet up to the stated "
-             "length in every slot, judged by the reference (texts with a blank at either end of the whole text and "
-             "zero / zero-padded exponents are enumerated but not judged, and are counted)")
+             "length in every slot, judged by the reference (texts with white space at either end of the whole text and "
+             "zero / zero-padded exponents are enumerated but not judged, and are counted); spelling cases compare the "
+             "u-spelled text with the µ-spelled one, whatever the reading is")
     ctx.assume("the documented grammar and symbol table as coded in mc/ref/grammar.py (self-tested against the "
                "OK / wrong examples and the table of documentation/using_quantities_with_units.rst); texts the "
                "documentation leaves open (zero exponents, nan/inf, underscores, non-ASCII digits, outer blanks) are "
